@@ -22,9 +22,10 @@ NUMFMT = [lambda x: repr(float(x)), lambda x: str(int(x)) if float(x).is_integer
 
 
 class Gen:
-    def __init__(self, rnd, small=True, trailing_dot=False):
+    def __init__(self, rnd, small=True, trailing_dot=False, family=None):
         self.r = rnd
         self.small = small
+        self.family = family  # force one distribution family (C18: schulz_zimm)
         # "2." directly before a '|' is taken for a mixture specifier by Molecule/System (finding C01-c):
         # generation-level checks avoid that number format, C01/C02 use it
         self.fmts = NUMFMT if trailing_dot else [f for k, f in enumerate(NUMFMT) if k != 2]
@@ -40,6 +41,7 @@ class Gen:
         r = self.r
         mean = mean or r.choice([40, 80, 150, 300] if self.small else [100, 500, 2000])
         fam = r.choice(["gauss", "gauss", "uniform", "schulz_zimm", "log_normal", "poisson", "flory_schulz"])
+        fam = self.family or fam
         if fam == "gauss":
             return f"|gauss({self.num(mean)},{self.ws()}{self.num(r.choice([1, mean * 0.1, mean * 0.4]))})|"
         if fam == "uniform":
@@ -211,13 +213,13 @@ class Gen:
         return a, getattr(self, a)()
 
 
-def cases(seed, n, archetypes=None, small=True):
+def cases(seed, n, archetypes=None, small=True, family=None):
     """n (archetype, text, subseed) cases"""
     master = random.Random(seed)
     out = []
     for i in range(n):
         sub = master.randrange(1 << 30)
-        g = Gen(random.Random(sub), small=small)
+        g = Gen(random.Random(sub), small=small, family=family)
         arche = None if archetypes is None else archetypes[i % len(archetypes)]
         if archetypes is None:
             arche = Gen.ARCHETYPES[i % len(Gen.ARCHETYPES)]
